@@ -1,4 +1,6 @@
 """C08 — Diagonal update obeys exact detailed balance in every slot (Metropolis and heat-bath)."""
+from checks import pure_fns
+from checks import extra_audits
 LEAN_TARGETS = ["QmcProps.C08", "drv_c08"]
 BINS = ["c08"]
 
@@ -42,6 +44,8 @@ RULE = ("random table Hamiltonians (1-4 variables, 1-5 bonds on 1-4 variables (3
 
 
 def main(ck):
+    extra_audits.run(ck)
+    pure_fns.run(ck)   # source->Lean translation of pure functions, re-proved equal to the hand model
     if ck.lake_build(LEAN_TARGETS):
         ck.audit("QmcProps.C08", ["Qmc.C08." + t for t in THEOREMS])
     if ck.cargo_build(BINS):
